@@ -10,6 +10,7 @@
 (*              "unstartable" (the file exists but cannot be executed);    *)
 (*              hooksrc "config" | "cli"                                   *)
 (*   dirty, allow, tagmsg, remote, dry, fetch   booleans                   *)
+(*   dirtypat   (optional) a file that carries a pattern is dirty          *)
 (*   ignore     --ignore-vcs-tag (the start version is the config value:   *)
 (*              no fetch, no tag listing)                                  *)
 (*   unique     the uniqueness check is demanded (--set-version or tag     *)
@@ -46,11 +47,14 @@ FullSteps(c) ==
       ELSE IF ~MCommit(c) THEN <<"write">>
       ELSE <<"status", "write">> \o Opt(c.pre # "absent", "prehook") \o <<"add", "commit">> \o Opt(c.post # "absent", "posthook")
            \o Opt(MTag(c), TagName(c)) \o Opt(MPush(c) /\ c.remote, PushName(c)))
+\* the dirty check: unrelated uncommitted changes block unless --allow-dirty; an uncommitted change of a file that carries a pattern blocks in any case
+DirtyPat(c) == IF "dirtypat" \in DOMAIN c THEN c.dirtypat ELSE FALSE
+DirtyBlocks(c) == DirtyPat(c) \/ (c.dirty /\ ~c.allow)
 StepFails(c, name) ==
   \/ name = c.failat
   \/ name \in {"tag", "tag_light"} /\ c.failat = "tag"
   \/ name \in {"push", "push_tag"} /\ c.failat = "push"
-  \/ name = "status" /\ c.dirty /\ ~c.allow
+  \/ name = "status" /\ DirtyBlocks(c)
   \/ name = "prehook" /\ HookFails(c.pre)
   \/ name = "posthook" /\ HookFails(c.post)
 FirstFail(c) == LET s == FullSteps(c) bad == {q \in 1..Len(s) : StepFails(c, s[q])} IN
